@@ -203,6 +203,24 @@ func c16Engine() *Engine {
 						}
 					}
 				}
+				if catsClass(cats) == "repeated-categories" && r.Pct(50) {
+					// a validator that looks items up by category name sees only the item
+					// of the FIRST category of that name: plain items there, climbing
+					// items under the repeats
+					first := map[string]bool{}
+					for j, cn := range strings.Split(cats, "/") {
+						if !first[cn] {
+							first[cn] = true
+							if cn == "Timeframe" {
+								comps[j] = []string{"1Min", "1H", "1D"}[r.Intn(3)]
+							} else {
+								comps[j] = []string{"AAPL", "OHLCV", "dir", "outside", "escaped"}[r.Intn(5)]
+							}
+						} else {
+							comps[j] = []string{"..", "..", "..", "../..", ".", "outside", "dir"}[r.Intn(7)]
+						}
+					}
+				}
 				if r.Pct(5) && len(comps) > 1 {
 					comps = comps[:len(comps)-1] // fewer items than categories
 				} else if r.Pct(5) {
